@@ -335,8 +335,7 @@ func init() {
 // version = Raft index).
 func mkRaft(tr *tracer.T, rng *rand.Rand, nOps int) {
 	tr.Emit(map[string]any{"ev": "reset"})
-	addr := nh.FreeAddr()
-	host, err := nh.New(addr, nil)
+	host, addr, err := nh.NewAuto(nil)
 	if err != nil {
 		die("%v", err)
 	}
